@@ -30,6 +30,9 @@ structure Entry where
   accesses : List Access      -- every access in every translation unit of the library, deduplicated
   resetBy : List String       -- functions that assign the whole variable (every field) by plain top-level `=`
                               -- statements, directly or through a callee called at top level
+  readFirstBy : List String   -- among the functions of `resetBy` and the per-trial initialisation entry points: those that may
+                              -- read the variable before they have assigned it (statement order; reads in nested positions
+                              -- and in callees count, only unconditional top-level assignments protect later reads)
   deriving Repr, DecidableEq, BEq
 
 /-- how the worker obtains its next trial index -/
